@@ -458,7 +458,14 @@ fn classic_cases() -> Vec<(TreeSpec, Op)> {
         (deep.clone(), Op::Resolve { path: b"a/b/c/../link".to_vec(), nofollow: false }),
         (deep.clone(), Op::Resolve { path: b"a/b/c/d/../../link/../f".to_vec(), nofollow: false }),
         (deep.clone(), Op::Readlink { path: b"a/b/c/../link".to_vec() }),
-        (deep, Op::OpenSubpath { path: b"a/b/../dir/x".to_vec(), flags: libc::O_RDONLY }),
+        (deep.clone(), Op::OpenSubpath { path: b"a/b/../dir/x".to_vec(), flags: libc::O_RDONLY }),
+        // one-shot opens whose *last* component is `..` or a link, with O_NOFOLLOW (the flag must not
+        // select a cheaper, unverified way of opening the final component)
+        (deep.clone(), Op::OpenSubpath { path: b"a/b/..".to_vec(), flags: libc::O_PATH | libc::O_NOFOLLOW }),
+        (deep.clone(), Op::OpenSubpath { path: b"a/b/c/../..".to_vec(), flags: libc::O_RDONLY | libc::O_NOFOLLOW | libc::O_DIRECTORY }),
+        (deep.clone(), Op::OpenSubpath { path: b"a/b/c/d/../../../../..".to_vec(), flags: libc::O_RDONLY | libc::O_NOFOLLOW }),
+        (deep.clone(), Op::OpenSubpath { path: b"a/b/c/../../../l".to_vec(), flags: libc::O_PATH | libc::O_NOFOLLOW }),
+        (deep, Op::OpenSubpath { path: b"l/c/d/..".to_vec(), flags: libc::O_RDONLY | libc::O_NOFOLLOW }),
     ]
 }
 
